@@ -38,7 +38,7 @@ def cases(draw, tier):
                 js = {"tokens": draw(st.integers(0, 3)), "high": draw(st.integers(0, 3)) > 0}
         invs.append({"argv": argv, "cwd": "", "env": env, "jobserver": js})
     return {"project": {k: v for k, v in proj.items()}, "invs": invs, "schedule": draw(sgen.schedule()),
-            "sopts": {"coincide": draw(st.integers(0, 3)) > 0, "token_games": draw(st.integers(0, 1)) == 1,
+            "sopts": {"seed": draw(st.integers(0, 2 ** 31 - 1)), "coincide": draw(st.integers(0, 3)) > 0, "token_games": draw(st.integers(0, 1)) == 1,
                       "patient": draw(st.integers(0, 3)) == 0, "start_first": draw(st.integers(0, 1)) == 1}}
 
 
